@@ -1,42 +1,40 @@
 // Mounted in ...::writer::vectored_write_polyfill — C16: sink write schedule independence
 use super::*;
 
-const CAP: usize = 6;
-const MAX_CALLS: usize = 5;
+const CAP: usize = 4;
 
-/// Sink whose every write call is decided by the solver:
-///   action 0: accept k bytes (1 <= k <= offered), 1: Err(Interrupted), 2: Ok(0), 3: hard error
+/// Sink whose every write call is decided by the solver. `mode` selects the family of schedules:
+///   0: every call accepts k bytes, 1 <= k <= offered (partial writes only)
+///   1: as 0, but the call number `special` returns Err(Interrupted) (must be retried, nothing lost)
+///   2: as 0, but the call number `special` returns Ok(0)           (must surface as WriteZero)
+///   3: as 0, but the call number `special` returns a hard error     (must surface)
 struct Sink {
 	buf: [u8; CAP],
 	len: usize,
 	calls: usize,
-	saw_zero: bool,
-	saw_hard: bool,
-	/// true: write_vectored only ever looks at the first non-empty buffer (std's default behaviour)
+	max_calls: usize,
+	mode: u8,
+	special: usize,
+	fired: bool,
+	/// true: write_vectored only looks at the first non-empty buffer (std's default behaviour)
 	first_only: bool,
 }
 impl Sink {
 	fn step(&mut self, offered: usize) -> Result<usize> {
-		kani::assume(self.calls < MAX_CALLS);
+		kani::assume(self.calls < self.max_calls);
+		let me = self.calls;
 		self.calls += 1;
-		let action: u8 = kani::any();
-		kani::assume(action < 4);
-		match action {
-			0 => {
-				let k: usize = kani::any();
-				kani::assume(k >= 1 && k <= offered);
-				Ok(k)
-			}
-			1 => Err(Error::from(ErrorKind::Interrupted)),
-			2 => {
-				self.saw_zero = true;
-				Ok(0)
-			}
-			_ => {
-				self.saw_hard = true;
-				Err(Error::from(ErrorKind::PermissionDenied))
-			}
+		if self.mode != 0 && me == self.special {
+			self.fired = true;
+			return match self.mode {
+				1 => Err(Error::from(ErrorKind::Interrupted)),
+				2 => Ok(0),
+				_ => Err(Error::from(ErrorKind::PermissionDenied)),
+			};
 		}
+		let k: usize = kani::any();
+		kani::assume(k >= 1 && k <= offered);
+		Ok(k)
 	}
 	fn push(&mut self, b: u8) {
 		kani::assume(self.len < CAP);
@@ -92,79 +90,95 @@ impl Write for Sink {
 	}
 }
 
-fn wav(first_only: bool) {
-	let a: [u8; 2] = kani::any();
+fn wav(mode: u8, first_only: bool) {
+	let a: [u8; 1] = kani::any();
 	let b: [u8; 2] = kani::any();
-	let c: [u8; 2] = kani::any();
+	let c: [u8; 1] = kani::any();
 	let (la, lb, lc): (usize, usize, usize) = (kani::any(), kani::any(), kani::any());
-	kani::assume(la <= 2 && lb <= 2 && lc <= 2);
+	kani::assume(la <= 1 && lb <= 2 && lc <= 1);
+	let n = la + lb + lc;
 	let mut concat = [0u8; CAP];
-	let mut n = 0;
+	let mut k = 0;
 	let mut i = 0;
 	while i < la {
-		concat[n] = a[i];
-		n += 1;
+		concat[k] = a[i];
+		k += 1;
 		i += 1;
 	}
 	i = 0;
 	while i < lb {
-		concat[n] = b[i];
-		n += 1;
+		concat[k] = b[i];
+		k += 1;
 		i += 1;
 	}
 	i = 0;
 	while i < lc {
-		concat[n] = c[i];
-		n += 1;
+		concat[k] = c[i];
+		k += 1;
 		i += 1;
 	}
-	let mut sink = Sink { buf: [0; CAP], len: 0, calls: 0, saw_zero: false, saw_hard: false, first_only };
+	let special: usize = kani::any();
+	kani::assume(special < 3);
+	let mut sink = Sink { buf: [0; CAP], len: 0, calls: 0, max_calls: 5, mode, special, fired: false, first_only };
 	let r = write_all_vectored(&mut sink, [&a[..la], &b[..lb], &c[..lc]]);
-	// whatever happened, what the sink holds is a prefix of the concatenation: nothing reordered/duplicated
+	// whatever happened, what the sink holds is a prefix of the concatenation: nothing reordered / duplicated
 	assert!(sink.len <= n, "c16: sink received more bytes than were submitted");
-	let mut k = 0;
-	while k < sink.len {
-		assert!(sink.buf[k] == concat[k], "c16: sink content is not a prefix of the submitted bytes");
-		k += 1;
+	let mut j = 0;
+	while j < sink.len {
+		assert!(sink.buf[j] == concat[j], "c16: sink content is not a prefix of the submitted bytes");
+		j += 1;
 	}
-	kani::cover!(r.is_ok() && sink.calls >= 4 && n == CAP);
-	kani::cover!(r.is_ok() && la == 0 && lb == 2 && lc == 0);
-	kani::cover!(r.is_err() && sink.saw_zero);
-	kani::cover!(r.is_err() && sink.saw_hard);
+	kani::cover!(mode >= 2 || (r.is_ok() && sink.calls >= 3 && n == CAP));
+	kani::cover!(sink.fired || mode == 0);
 	match &r {
 		Ok(()) => {
-			assert!(!sink.saw_zero && !sink.saw_hard, "c16: Ok although the sink refused data");
+			assert!(!(sink.fired && mode >= 2), "c16: Ok although the sink refused data");
 			assert!(sink.len == n, "c16: Ok but not every byte reached the sink");
 		}
 		Err(e) => {
-			assert!(sink.saw_zero || sink.saw_hard, "c16: error although the sink only made progress or asked for retry");
-			assert!(sink.len < n || n == 0, "c16: error after everything was written");
-			if sink.saw_zero {
+			assert!(sink.fired && mode >= 2, "c16: error although the sink only made progress or asked for a retry");
+			if mode == 2 {
 				assert!(e.kind() == ErrorKind::WriteZero, "c16: zero-length write not reported as WriteZero");
 			} else {
-				assert!(e.kind() == ErrorKind::PermissionDenied, "c16: sink's hard error did not surface");
+				assert!(e.kind() == ErrorKind::PermissionDenied, "c16: the sink's hard error did not surface");
 			}
 		}
 	}
 	std::mem::forget(r);
 }
 
-// @harness props=C16x tier=quick timeout=1200
-// @bound 3 slices of symbolic length 0..=2 each and symbolic content; sink accepting bytes across buffers; <= 5 sink calls, each accept-k / Interrupted / Ok(0) / hard error (runs needing more calls are outside); unwind 8
+// @harness props=C16 tier=quick timeout=1800
+// @bound 3 slices of symbolic length 0..=1 / 0..=2 / 0..=1 and symbolic content; sink accepting any non-empty prefix per call, across buffers and first-buffer-only (symbolic); <= 5 sink calls (longer schedules outside); unwind 7
 #[kani::proof]
-#[kani::unwind(8)]
+#[kani::unwind(7)]
 #[kani::stub(alloc::fmt::format, crate::verif::stub_format)]
-fn c16_wav_across() {
-	wav(false);
-	kani::cover!(true, "end of harness reached");
+fn c16_wav_partial() {
+	wav(0, kani::any());
 }
 
-// @harness props=C16x tier=quick timeout=1200
-// @bound same, sink that only ever takes from the first non-empty buffer (std's default write_vectored)
+// @harness props=C16 tier=quick timeout=1800
+// @bound same slices; one call (symbolic index 0..=2) reports Interrupted and must be retried without losing data
 #[kani::proof]
-#[kani::unwind(8)]
+#[kani::unwind(7)]
 #[kani::stub(alloc::fmt::format, crate::verif::stub_format)]
-fn c16_wav_first_only() {
-	wav(true);
-	kani::cover!(true, "end of harness reached");
+fn c16_wav_interrupted() {
+	wav(1, false);
+}
+
+// @harness props=C16 tier=quick timeout=1800
+// @bound same slices; one call (symbolic index 0..=2) accepts zero bytes: the call must fail with WriteZero
+#[kani::proof]
+#[kani::unwind(7)]
+#[kani::stub(alloc::fmt::format, crate::verif::stub_format)]
+fn c16_wav_zero() {
+	wav(2, false);
+}
+
+// @harness props=C16 tier=quick timeout=1800
+// @bound same slices; one call (symbolic index 0..=2) fails hard: that error must surface
+#[kani::proof]
+#[kani::unwind(7)]
+#[kani::stub(alloc::fmt::format, crate::verif::stub_format)]
+fn c16_wav_hard_error() {
+	wav(3, false);
 }
